@@ -195,6 +195,8 @@ static NEXT_TMP: AtomicU64 = AtomicU64::new(0);
 /// schema() / describe() / hash() / hash256() of a built parser failing with a foreign error:
 /// outside C04's statement, counted for the evidence file only
 pub static NODE_NOTES: AtomicU64 = AtomicU64::new(0);
+/// modules that were wrapped by the working tree's own bundle-to-disk.ts (ES module and CommonJS)
+pub static NODE_REAL_HOST: AtomicU64 = AtomicU64::new(0);
 
 // ------------------------------------------------------------------------------------------
 // coordinator
@@ -752,6 +754,7 @@ pub fn check(cfg: &CheckCfg) -> i32 {
             "c04_largest_cpu_time_of_one_api_call_ms": agg.max_call_cpu_ms,
             "c04_located_diagnostics_checked": agg.stats.c04_locations_checked,
             "c04_emitted_modules_imported_by_node": node_modules_checked,
+            "c04_modules_wrapped_by_the_real_bundle_to_disk_as_esm_and_cjs": NODE_REAL_HOST.load(Ordering::Relaxed),
             "c04_distinct_emitted_modules_seen": agg.codes.len(),
             "c04_other_entry_points_failing_with_foreign_errors_noted_not_alarmed": NODE_NOTES.load(Ordering::SeqCst),
             "c10_comparisons": agg.stats.c10_comparisons,
@@ -860,7 +863,16 @@ pub fn node_leg(items: &[&CodeItem], label: &str) -> Result<Vec<(u64, String, se
         let file = format!("{}/{:016x}.mjs", dir, it.hash);
         let full = crate::tools::finalize(&it.code, "esm", &it.string_formats, &it.number_formats);
         std::fs::write(&file, full).map_err(|e| e.to_string())?;
-        lists[i % nproc].push(json!({"hash": format!("{:016x}", it.hash), "file": file, "expected_keys": it.expected_keys, "string_formats": it.string_formats, "number_formats": it.number_formats}));
+        // every fourth module is also handed over as the compiler emitted it: the Node side wraps
+        // it with the working tree's own bundle-to-disk.ts, as an ES module and as CommonJS
+        let raw = if i % 4 == 0 {
+            let rf = format!("{}/{:016x}.raw.js", dir, it.hash);
+            std::fs::write(&rf, &it.code).map_err(|e| e.to_string())?;
+            Some(rf)
+        } else {
+            None
+        };
+        lists[i % nproc].push(json!({"hash": format!("{:016x}", it.hash), "file": file, "raw": raw, "expected_keys": it.expected_keys, "string_formats": it.string_formats, "number_formats": it.number_formats}));
     }
     // one Node process per list; a process that reports a stalled module (its own watchdog
     // thread: 20 s of CPU without progress) is restarted on the rest of its list
@@ -894,6 +906,9 @@ pub fn node_leg(items: &[&CodeItem], label: &str) -> Result<Vec<(u64, String, se
                             continue;
                         }
                         seen += 1;
+                        if r["real_host"].as_bool() == Some(true) {
+                            NODE_REAL_HOST.fetch_add(1, Ordering::Relaxed);
+                        }
                         if r["ok"].as_bool() != Some(true) {
                             let h = u64::from_str_radix(r["hash"].as_str().unwrap_or("0"), 16).unwrap_or(0);
                             out.push((h, r["class"].as_str().unwrap_or("module-check-failed").to_string(), r["detail"].clone()));
